@@ -177,6 +177,12 @@ func (w *world) preamble() {
 			got := w.backend.Received(5 * time.Second)
 			if rec.Panic != nil || got == nil {
 				w.preambleFailure = fmt.Sprintf("%q through forwarder passHost=%v: status %d, panic %v, backend reached: %v", raw, pi == 1, rec.Code, rec.Panic, got != nil)
+			} else if wr, err := parseWire(got); err == nil {
+				// the request target must arrive as the client wrote it (asterisk form included)
+				want := strings.SplitN(raw, " HTTP/", 2)[0] + " HTTP/1.1"
+				if wr.line != want {
+					w.preambleFailure = fmt.Sprintf("client sent %q, backend received %q (forwarder passHost=%v)", want, wr.line, pi == 1)
+				}
 			}
 			w.preambleRequests++
 		}
